@@ -67,7 +67,7 @@ def resolver_obligations(pid):
     return out
 
 
-for _p in ("C20", "C12"):
+for _p in ("C20",):
     def _mk(pid):
         @extra(pid)
         def _f(tier, seed, pid=pid):
